@@ -233,6 +233,22 @@ PROPS["C17"] = dict(
     thorough=dict(shards=16, checks=2000, timeout_s=5400),
 )
 
+PROPS["C19"] = dict(
+    pkg="props/c19", level="exploration", engine="E-model", design_ref="§4 C19",
+    technique="stateful PBT (rapid) with resource accounting: /proc/self/fd links and /proc/self/maps lines below the case directory, goroutine stacks with library frames",
+    rule=("case = (a) database program of 10..40 (thorough 60) rotate+flush cycles with puts/deletes, hook-driven compaction cycles or the real 1 ms ticker and clean reopen cycles: at every quiescent point "
+          "descriptors+mappings below the directory <= 2*live tables+4, after every Close exactly 0 and no goroutine with a go-sstables frame, directory removable and reusable; (b) table reader program "
+          "(slice/skip-list/disk/map loaders) of Get, complete and abandoned Scan / ScanRange / ScanStartingAt, then Close => 0 held; (c) RecordIO writer, sequential reader closed mid-file, mmap reader => 0 held; "
+          "(d) WAL appender with rotations and a replay cut short by its callback => 0 held; non-trivial = (a) >=10 cycles with >=3 merging compactions or the ticker, (b) an abandoned scan, (c) reader closed mid-file, "
+          "(d) >=2 log files; distinct = distinct case JSON"),
+    level_text="Resource counts are read from the kernel's view of the process at generated quiescent points and after every Close; the linear bound makes any per-cycle leak exceed it within the generated cycle counts.",
+    level_note="transient peaks inside a compaction are not bounded by the property and not asserted; goroutines on their way out get up to 2 s to disappear (a leaked goroutine never does)",
+    assumptions=COMMON_ASSUME + ["Linux /proc; hooks simpledb.Verif* (tag verif)"],
+    require_labels=["kind=db", "kind=table", "kind=recordio", "kind=wal", "db-with-ticker", "compactions=>=3"],
+    quick=dict(shards=16, checks=20, shrink_s=5),
+    thorough=dict(shards=16, checks=400, timeout_s=5400),
+)
+
 NOT_APPLICABLE = {}
 
 
